@@ -44,7 +44,12 @@ ASSUMPTIONS = [
     "+-1); tangency itself (0..8 ulp) is covered by the float exploration only",
 ]
 
-INTERVAL_AXIOMS_OK = set(core.ALLOWED_AXIOMS)
+# The per-case lemmas are proved by `interval with (i_prec 90)`, whose multi-precision arithmetic is
+# Bignums over Coq's primitive 63-bit integers: besides the Reals axioms allowed for the theorem file
+# they depend on the standard library's PrimInt63 primitives and their Uint63 specification axioms
+# (Coq.Numbers.Cyclic.Int63). Nothing else is accepted (no primitive floats are involved).
+def interval_axiom_ok(name: str) -> bool:
+    return name in core.ALLOWED_AXIOMS or name.startswith("Uint63.") or name.startswith("PrimInt63.")
 
 
 # --------------------------------------------------------------------------
@@ -157,6 +162,17 @@ def oracle(case, obs):
     w = obs["w"] if obs.get("w_exc") is None else ("exc", obs["w_exc"])
     j = judge(t, v, w)
     return None if j is None else f"{j[0]}: {j[1]}"
+
+
+def readable(case) -> str:
+    x1, y1, r1, x2, y2, r2 = case_tuple(case)
+    return f"c1=({x1!r}, {y1!r}) r1={r1!r} c2=({x2!r}, {y2!r}) r2={r2!r}"
+
+
+def fail_entry(case, obs, why, **more) -> dict:
+    return {"key": failure_key(case, why), "why": why, "input": readable(case),
+            "call": "tools.force.fruchterman_reingold.circle_circle_intersection_area(Point(*c1), r1, Point(*c2), r2)",
+            "case": fr.tojson(case), "impl": fr.tojson(obs), **more}
 
 
 def failure_key(case, why):
@@ -337,8 +353,7 @@ def explore(ctx, out, total):
         t, cls, why, v, w = collected[kind][0]
         case = case_dict(t, cls)
         small, obs, why2 = shrink_case(case, kind)
-        entry = {"key": f"C17/{kind}", "why": why2, "case": fr.tojson(small), "impl": fr.tojson(obs),
-                 "count_in_this_run": nfail[kind]}
+        entry = fail_entry(small, obs, why2, count_in_this_run=nfail[kind])
         if small != case:
             entry["shrunk_from"] = fr.tojson(case)
         out.failures.append(entry)
@@ -486,7 +501,8 @@ def prove_cases(ctx, out, cases, shard):
         idx = todo[k:k + shard]
         name = f"lens_cases_{k // shard}"
         body = [HEADER] + [proof_lemma(i, cases[i][0], cases[i][1]["v"]) for i in idx]
-        body.append(f"Print Assumptions case_{idx[0]}.\n")
+        if k == 0 or not ctx.quick():   # identical proof script everywhere: one audit per run (all shards when thorough)
+            body.append(f"Print Assumptions case_{idx[0]}.\n")
         (ctx.work / f"{name}.v").write_text("\n".join(body))
         files.append((name, idx))
     axioms = set()
@@ -513,7 +529,7 @@ def prove_cases(ctx, out, cases, shard):
         if rc == 0:
             for i in idx:
                 results[i] = True
-            if "Closed under the global context" not in o:
+            if "Axioms:" in o:
                 axioms.update(re.findall(r"^([A-Za-z_][A-Za-z0-9_.']*)\s*:", o.split("Axioms:")[-1], flags=re.M))
         else:
             for i in idx:   # find the culprit(s): one file per lemma
@@ -528,7 +544,7 @@ def prove_cases(ctx, out, cases, shard):
             if rc != 0:
                 out.extra.setdefault("coq_errors", []).append(re.sub(r"\s+", " ", o)[-600:])
     out.extra["interval_goal_axioms"] = sorted(axioms)
-    bad_ax = sorted(a for a in axioms if a not in INTERVAL_AXIOMS_OK)
+    bad_ax = sorted(a for a in axioms if not interval_axiom_ok(a))
     if bad_ax:
         ctx.notes.append("interval goals depend on axioms outside the allow-list: " + ", ".join(bad_ax))
         out.disagreements.append({"key": "C17/axioms", "case": None, "impl": None, "explained": False,
@@ -564,8 +580,7 @@ def run(ctx, out, replay=None):
         out.count("corpus/" + exact_class(case_tuple(case)))
         why = oracle(case, obs)
         if why:
-            out.failures.append({"key": failure_key(case, why), "why": why, "case": fr.tojson(case),
-                                 "impl": fr.tojson(obs)})
+            out.failures.append(fail_entry(case, obs, why))
     rng = ctx.rng
     while len(proof_cases) < n_proof:
         case = gen_proof_case(rng)
@@ -574,8 +589,7 @@ def run(ctx, out, replay=None):
         out.count(case["cls"] + "/" + exact_class(case_tuple(case)))
         why = oracle(case, obs)
         if why:
-            out.failures.append({"key": failure_key(case, why), "why": why, "case": fr.tojson(case),
-                                 "impl": fr.tojson(obs)})
+            out.failures.append(fail_entry(case, obs, why))
         proof_cases.append((case, obs, why))
     proved = prove_cases(ctx, out, [(c, o) for c, o, _ in proof_cases], shard=4 if quick else 10)
     nbad = 0
@@ -607,6 +621,5 @@ def run_oracle_only(ctx, out):
         out.add_case(fr.tojson(case), True)
         why = oracle(case, obs)
         if why:
-            out.failures.append({"key": failure_key(case, why), "why": why, "case": fr.tojson(case),
-                                 "impl": fr.tojson(obs)})
+            out.failures.append(fail_entry(case, obs, why))
     explore(ctx, out, 50_000)
